@@ -21,7 +21,8 @@ func verifRefBegin()
 func verifRefEnd()
 
 // verifAllow sets the admissible outcomes of a user function:
-// bit 0 = returns normally, bit 1 = returns its error, bit 2 = panics.
+// bit 0 = returns normally, bit 1 = returns its error, bit 2 = panics,
+// bit 3 = panics with a value of an uncomparable type (a slice).
 func verifAllow(name string, mask int)
 func verifCallCount(name string) int
 func verifCallSeq(name string, call int) int
@@ -92,6 +93,7 @@ func P1(a A) bool
 func P2(ctx context.Context, b B) bool
 func T8(b B) (D, error)
 func T9(b B, e E) D
+func TA(a A) C
 
 // parallel tasks
 func R1() error
